@@ -200,6 +200,13 @@ def directed_chains():
           [f[0], ["b", ["union", False, [["y", P("uint8")], ["x", P("string")]]]], f[2], f[3]])
     chain("directed:vector-element-type", [["v", ["vec", P("int16"), None]], ["w", ["vec", P("int16"), 3]], ["x", ["opt", ["vec", ["vec", P("uint8"), None], None]]]],
           [["v", ["vec", P("int64"), None]], ["w", ["vec", P("int32"), 3]], ["x", ["opt", ["vec", ["vec", P("uint16"), None], None]]]])
+    # a record of fixed-size scalars is copied as raw memory by the C++ back end when it sits in a vector (arrays and maps of a changed record are not accepted evolutions): the
+    # records of an older version must still go through the conversion
+    ft = [["a", P("int32")], ["c", P("float64")], ["e", P("uint16")]]
+    holder = lambda: [["h", ["ref", "R"], False], ["s", ["vec", ["ref", "R"], None], True], ["v", ["vec", ["ref", "R"], 2], False], ["o", ["opt", ["vec", ["ref", "R"], None]], False],
+                      ["w", ["vec", ["vec", ["ref", "R"], 2], None], False]]
+    chain("directed:fixed-size-record-in-vectors", ft, [["a", P("int64")], ft[1], ft[2]], [ft[2], ft[1], ft[0]], [ft[0], ft[1]],
+          steps_list=[holder(), holder(), holder(), holder()])
     s0 = steps()
     chain("directed:add-steps-that-can-be-empty", f, f, f,
           steps_list=[s0, s0 + [["t", ["opt", P("string")], False]], [["u", P("int32"), True]] + s0 + [["t", ["opt", P("string")], False], ["m", ["map", P("string"), P("int8")], False]]])
